@@ -41,7 +41,9 @@ def make_curve(rng, integer=False, small=False):
             # switching a few samples before / after the deepest point
             "hquant": 0, "segshift": 0,
             # indentation depth below the contact point: micrometres, or a few nanometres (stiff samples)
-            "depth": rng.choice([1.0e-6, 1.0e-6, 1.0e-6, 8e-9, 3e-9])}
+            "depth": rng.choice([1.0e-6, 1.0e-6, 1.0e-6, 8e-9, 3e-9]),
+            # time stamps: one uniform grid, a retract sampled at another rate, or a dwell between the segments
+            "tgrid": rng.choice(["uniform", "uniform", "retract-rate", "dwell"])}
     special = rng.choice(["none", "none", "hquant", "segshift"])
     if special == "hquant":
         meta.update(hquant=rng.choice([3, 8]), hnoise=0)
@@ -63,6 +65,11 @@ def build_curve(meta):
     tip_r = np.linspace(-depth, zmax, n_ret + 1)[1:]
     tip = np.concatenate([tip_a, tip_r])
     time = np.arange(n) * 1e-3
+    if meta.get("tgrid") == "retract-rate":
+        time = np.concatenate([np.arange(n_app) * 1e-3, (n_app - 1) * 1e-3 + 2.5e-3 * np.arange(1, n_ret + 1)])
+    elif meta.get("tgrid") == "dwell":
+        time = np.concatenate([np.arange(n_app) * 1e-3, (n_app - 1) * 1e-3 + 0.4 * n_app * 1e-3 +
+                               1e-3 * np.arange(1, n_ret + 1)])
     f_ideal = fitlib.model_force(meta["model"], tip, p)
     if lag:
         f_ideal = np.concatenate([np.full(lag, f_ideal[0]), f_ideal[:-lag]])
